@@ -4,6 +4,7 @@ import OvniModel.Lemmas.Sort
 import OvniModel.Lemmas.SortState
 import OvniModel.Lemmas.Breakdown
 import OvniModel.Lemmas.BreakdownSys
+import OvniModel.Lemmas.CoreBayOrder
 
 /-!
 # C20 — breakdown view: the rows hold the sorted per-CPU breakdown values
@@ -15,7 +16,7 @@ values.  `qsort` is a parameter `qs` about which only `IsSort qs` (returns a
 sorted permutation) is assumed.
 -/
 namespace Ovni.Props.C20
-open Ovni.Emu Ovni.Emu.Sort Ovni.Emu.Breakdown
+open Ovni.Emu.Sort Ovni.Emu.Breakdown
 
 /-! ## `sort_replace` -/
 
@@ -243,14 +244,190 @@ theorem dirty_level_ordered_partial (k : Consts) (c : Cpu) (sets : List (Src × 
   intro c'
   have q := quiescent_step k c sets hq ho
   exact ⟨q, q.tri, tri_of_delivered k c' q.idle q.tr⟩
--- OPEN: `dirty_level_ordered` for the whole emulator — that the CPU channels
--- really enter the dirty list as `step` assumes (all three written before any
--- is processed; `task_type` < `subsystem` < `idle` on a `th_running` change
--- because `model_cpu_connect` registers the track muxes in channel-index
--- order; `ss` before `tt` on `VTx`/`VTe`) needs the global bay/track model
--- (C06).  Here it is an explicit hypothesis (`orderOk`), exercised against
--- the real `connect_cpu` by the harness and against `ovniemu -b` by the e2e
--- oracle.
+
+/-! ### `orderOk` from the registration order of the global bay (C06's `bayOf`) -/
+
+/-- channel id ↦ which of the CPU's three breakdown inputs it is -/
+def srcOf (tt ss idle ch : Nat) : Option Src :=
+  if ch = tt then some Src.tt else if ch = ss then some Src.ss else if ch = idle then some Src.idle else none
+
+/-- The three CPU track outputs feeding the breakdown, as they appear on a
+    dirty list: channel ids `tt`, `ss`, `idle` ↦ `Src`. -/
+def srcOrder (tt ss idle : Nat) (d : List Nat) : List Src := d.filterMap (srcOf tt ss idle)
+
+theorem srcOf_iff (tt ss idle : Nat) (hts : tt ≠ ss) (hti : tt ≠ idle) (hsi : ss ≠ idle) (ch : Nat) :
+    (srcOf tt ss idle ch = some Src.tt ↔ ch = tt) ∧ (srcOf tt ss idle ch = some Src.ss ↔ ch = ss) ∧
+    (srcOf tt ss idle ch = some Src.idle ↔ ch = idle) := by
+  unfold srcOf
+  by_cases h1 : ch = tt <;> by_cases h2 : ch = ss <;> by_cases h3 : ch = idle <;> simp_all
+
+theorem dedup_of_nodup : ∀ (l : List Src), l.Nodup → dedup l = l := by
+  intro l
+  induction l with
+  | nil => intro _; rfl
+  | cons a l ih =>
+    intro h
+    rw [List.nodup_cons] at h
+    rw [dedup, ih h.2]
+    congr 1
+    apply List.filter_eq_self.mpr
+    intro x hx
+    have : x ≠ a := fun e => h.1 (e ▸ hx)
+    simpa using this
+
+theorem idxOf_cons_ne {a x : Nat} {d : List Nat} (h : a ≠ x) :
+    (a :: d).idxOf x = d.idxOf x + 1 := by
+  rw [List.idxOf_cons]
+  have : (a == x) = false := beq_eq_false_iff_ne.mpr h
+  simp only [this, cond_false]
+
+theorem srcOrder_contains (tt ss idle : Nat) (hts : tt ≠ ss) (hti : tt ≠ idle) (hsi : ss ≠ idle) (d : List Nat) :
+    (Src.tt ∈ srcOrder tt ss idle d ↔ tt ∈ d) ∧ (Src.ss ∈ srcOrder tt ss idle d ↔ ss ∈ d) := by
+  unfold srcOrder
+  simp only [List.mem_filterMap]
+  constructor
+  · constructor
+    · rintro ⟨x, hx, hf⟩
+      rw [((srcOf_iff tt ss idle hts hti hsi x).1).mp hf] at hx; exact hx
+    · intro h; exact ⟨tt, h, ((srcOf_iff tt ss idle hts hti hsi tt).1).mpr rfl⟩
+  · constructor
+    · rintro ⟨x, hx, hf⟩
+      rw [((srcOf_iff tt ss idle hts hti hsi x).2.1).mp hf] at hx; exact hx
+    · intro h; exact ⟨ss, h, ((srcOf_iff tt ss idle hts hti hsi ss).2.1).mpr rfl⟩
+
+/-- If on a duplicate-free dirty list `idle` comes after `tt` and after `ss`
+    (whenever both are present), the order hypothesis of
+    `dirty_level_ordered_partial` holds. -/
+theorem orderOk_of_positions (tt ss idle : Nat) (hts : tt ≠ ss) (hti : tt ≠ idle) (hsi : ss ≠ idle) :
+    ∀ (d : List Nat), d.Nodup →
+      (tt ∈ d → idle ∈ d → d.idxOf tt < d.idxOf idle) → (ss ∈ d → idle ∈ d → d.idxOf ss < d.idxOf idle) →
+      orderOk (srcOrder tt ss idle d) = true := by
+  intro d
+  induction d with
+  | nil => intro _ _ _; rfl
+  | cons a d ih =>
+    intro hnd h1 h2
+    rw [List.nodup_cons] at hnd
+    have hstep : ∀ x, a ≠ x → a ≠ idle → (x ∈ a :: d → idle ∈ a :: d → (a :: d).idxOf x < (a :: d).idxOf idle) →
+        (x ∈ d → idle ∈ d → d.idxOf x < d.idxOf idle) := by
+      intro x hax hai h hx hi
+      have := h (by simp [hx]) (by simp [hi])
+      rw [idxOf_cons_ne hax, idxOf_cons_ne hai] at this
+      omega
+    by_cases hai : a = idle
+    · -- idle first: no tt / ss may follow
+      subst hai
+      have hnt : tt ∉ d := by
+        intro h
+        have := h1 (by simp [h]) (by simp)
+        rw [List.idxOf_cons] at this
+        simp at this
+      have hns : ss ∉ d := by
+        intro h
+        have := h2 (by simp [h]) (by simp)
+        rw [List.idxOf_cons] at this
+        simp at this
+      have hc := srcOrder_contains tt ss a hts hti hsi d
+      have e : srcOrder tt ss a (a :: d) = Src.idle :: srcOrder tt ss a d := by
+        simp [srcOrder, srcOf, Ne.symm hti, Ne.symm hsi]
+      rw [e]
+      simp only [orderOk, List.contains_eq_mem, hc.1, hc.2, hnt, hns]
+      simp
+    · by_cases hat : a = tt
+      · subst hat
+        have e : srcOrder a ss idle (a :: d) = Src.tt :: srcOrder a ss idle d := by simp [srcOrder, srcOf]
+        rw [e]
+        simp only [orderOk]
+        exact ih hnd.2 (fun h => absurd h hnd.1) (hstep ss hts hai h2)
+      · by_cases has : a = ss
+        · subst has
+          have e : srcOrder tt a idle (a :: d) = Src.ss :: srcOrder tt a idle d := by
+            simp [srcOrder, srcOf, Ne.symm hts]
+          rw [e]
+          simp only [orderOk]
+          exact ih hnd.2 (hstep tt (Ne.symm hts) hai h1) (fun h => absurd h hnd.1)
+        · have e : srcOrder tt ss idle (a :: d) = srcOrder tt ss idle d := by
+            simp [srcOrder, srcOf, hat, has, hai]
+          rw [e]
+          exact ih hnd.2 (hstep tt hat hai h1) (hstep ss has hai h2)
+
+theorem srcOrder_nodup (tt ss idle : Nat) (hts : tt ≠ ss) (hti : tt ≠ idle) (hsi : ss ≠ idle) (d : List Nat)
+    (hnd : d.Nodup) : (srcOrder tt ss idle d).Nodup := by
+  unfold srcOrder
+  refine List.Pairwise.filterMap _ ?_ hnd
+  intro a a' hne b hb b' hb' hbb
+  subst hbb
+  obtain ⟨i1, i2, i3⟩ := srcOf_iff tt ss idle hts hti hsi a
+  obtain ⟨j1, j2, j3⟩ := srcOf_iff tt ss idle hts hti hsi a'
+  cases b with
+  | tt => exact hne ((i1.mp hb).trans (j1.mp hb').symm)
+  | ss => exact hne ((i2.mp hb).trans (j2.mp hb').symm)
+  | idle => exact hne ((i3.mp hb).trans (j3.mp hb').symm)
+
+/-- **dirty_level_ordered** for the thread-state and affinity events (ovni
+    `OH*`, `OA*`), derived from the emulator's bay instead of assumed.  For the
+    bay `emu_connect` builds (`Shape.connect`, C06) and every emulator step that
+    writes only system channels (`SimP Src.isSys`, e.g. `SimP.preThread`): all
+    track outputs are appended to the dirty list while the written channels are
+    processed (so all three CPU channels are on the list before any of them is
+    processed), those of one CPU and one model in channel-index order; hence for
+    any channels `itt`, `iss` below `iidle` (nOS-V: task type 2, subsystem 4,
+    idle 6) the order hypothesis `orderOk` of `dirty_level_ordered_partial`
+    holds for the CPU's three breakdown inputs. -/
+theorem dirty_level_ordered_sys {e e' : Ovni.Emu.Emu} {b0 b : Ovni.Emu.Bay} (hc : e.shape.connect = .ok b0)
+    (hs : Ovni.Emu.Shaped e) (hi : Ovni.Emu.Inv b0 e b) (hsim : Ovni.Emu.SimP Ovni.Emu.Src.isSys e e')
+    {c k itt iss iidle : Nat} {m : Ovni.Emu.ModelSpec} (hcl : c < e.cpus.length) (hk : e.specs[k]? = some m)
+    (h1 : itt < iidle) (h2 : iss < iidle) (h3 : iidle < m.nch) (hne : itt ≠ iss) :
+    ∃ b1 bP bF em, Ovni.Emu.Bay.Writes (e.shape.okP Ovni.Emu.Src.isSys) b b1 ∧ Ovni.Emu.Mirrors e' b1 ∧
+      b1.dirtyPhase b1.chans.length 0 = .ok bP ∧ b1.propagate = .ok (bF, em) ∧ Ovni.Emu.Inv b0 e'.flushAll bF ∧
+      bP.dirty = b1.dirty ++ b1.dirty.flatMap b0.selOuts ∧
+      orderOk (dedup (srcOrder (e.shape.cpuOut c k itt) (e.shape.cpuOut c k iss) (e.shape.cpuOut c k iidle)
+        bP.dirty)) = true := by
+  obtain ⟨b1, bP, bF, em, hw, hm, hph, hp, hinv, wfP, hsub, hd, _⟩ := Ovni.Emu.Inv.sys_event hc hs hi hsim
+  have hb := Ovni.Emu.Shape.connect_built hc
+  have hk' : e.shape.specs[k]? = some m := hk
+  have hcl' : c < e.shape.nC := hcl
+  have hj : ∀ i, i < m.nch → Ovni.Emu.Job.cpu c k i ∈ e.shape.jobs :=
+    fun i hi => (e.shape.mem_jobs_cpu c k i).mpr ⟨hcl', m, hk', hi⟩
+  have hti : e.shape.cpuOut c k itt ≠ e.shape.cpuOut c k iidle :=
+    Nat.ne_of_lt (e.shape.cpuOut_lt (hj itt (by omega)) (hj iidle h3) h1)
+  have hsi : e.shape.cpuOut c k iss ≠ e.shape.cpuOut c k iidle :=
+    Nat.ne_of_lt (e.shape.cpuOut_lt (hj iss (by omega)) (hj iidle h3) h2)
+  have hts : e.shape.cpuOut c k itt ≠ e.shape.cpuOut c k iss := by
+    rcases Nat.lt_or_gt_of_ne hne with h | h
+    · exact Nat.ne_of_lt (e.shape.cpuOut_lt (hj itt (by omega)) (hj iss (by omega)) h)
+    · exact Nat.ne_of_gt (e.shape.cpuOut_lt (hj iss (by omega)) (hj itt (by omega)) h)
+  have hD : ∀ s ∈ b1.dirty, s < e.shape.L := fun s h => Ovni.Emu.Shape.okP_lt (hsub s h)
+  refine ⟨b1, bP, bF, em, hw, hm, hph, hp, hinv, hd, ?_⟩
+  rw [dedup_of_nodup _ (srcOrder_nodup _ _ _ hts hti hsi _ wfP.dirtyNodup)]
+  exact orderOk_of_positions _ _ _ hts hti hsi _ wfP.dirtyNodup
+    (fun hx hy => hb.cpu_order hd hD hcl' hk' h1 h3 hx hy)
+    (fun hx hy => hb.cpu_order hd hD hcl' hk' h2 h3 hx hy)
+
+/-- The ovni thread events (`OHx OHe OHp OHr OHc OHw`) are such steps. -/
+theorem dirty_level_ordered_thread_events {e e' : Ovni.Emu.Emu} {ti v : Nat} {p : List Nat}
+    (h : Ovni.Emu.preThread e ti v p = .ok e') : Ovni.Emu.SimP Ovni.Emu.Src.isSys e e' :=
+  Ovni.Emu.SimP.preThread h
+
+/-- … and so are the affinity events (`OAs`, `OAr`). -/
+theorem dirty_level_ordered_affinity_events {e e' : Ovni.Emu.Emu} {ti : Nat} {p : List Nat} :
+    (Ovni.Emu.preAffinitySet e ti p = .ok e' → Ovni.Emu.SimP Ovni.Emu.Src.isSys e e') ∧
+    (Ovni.Emu.preAffinityRemote e ti p = .ok e' → Ovni.Emu.SimP Ovni.Emu.Src.isSys e e') :=
+  ⟨Ovni.Emu.SimP.preAffinitySet, Ovni.Emu.SimP.preAffinityRemote⟩
+
+-- OPEN (what is left of `dirty_level_ordered` for the whole emulator).
+-- Proved now: for every thread-state / affinity event the three CPU channels enter the
+-- dirty list in the order `task_type`, `subsystem`, `idle`, all of them before any is
+-- processed, as a consequence of `model_cpu_connect` calling `mux_init` in channel-index
+-- order (`dirty_level_ordered_sys`; bay-level: `Bay.dirtyPhase_selectOnly`,
+-- `Shape.Built.cpu_order`).  Still a hypothesis (`orderOk`) for the task events
+-- `VTx` / `VTe` / `VTp` / `VTr` (and the Nanos6 analogues): there the CPU channels enter
+-- through `cb_input` in the order in which the task layer writes the thread's raw
+-- channels (`ss` before `tt`); the task layer (`Emu/Task.lean`) is a hook of the
+-- reference emulator with its own state, not connected to the bay model.  Also not
+-- modelled: the breakdown muxes themselves (chained muxes on the CPU track outputs) are
+-- not part of `bayOf`; `step` is their per-CPU model.  Those parts stay exercised
+-- against the real `connect_cpu` by the harness and against `ovniemu -b` by the e2e oracle.
 
 /-- Even with a bad order the muxes themselves end up right; only what the
     sort module saw can be out of date. -/
@@ -335,5 +512,63 @@ example : ¬ Fresh nosv exStaleB ∧ exStaleB.seen = .null ∧
     (here it still holds `NULL` although `tri = 5`). -/
 example : (step nosv Cpu.init [(.idle, .int 100), (.ss, .int 5)]).tri = .int 5 ∧
     (step nosv Cpu.init [(.idle, .int 100), (.ss, .int 5)]).seen = .null := by decide
+
+
+/-! ### Non-vacuity of `dirty_level_ordered_sys`
+
+Two threads, a physical and the virtual CPU, models ovni + nOS-V (position 1
+in the spec list: task type = channel 2, subsystem = 4, idle = 6).  The event
+is `OHx` of thread 0 on CPU 0. -/
+
+def exEmu : Ovni.Emu.Emu :=
+  Ovni.Emu.mkEmu [(100, 10, 0), (101, 10, 0)] [(0, 0, false), (0, -1, true)] [79, 86] false []
+
+def exBay0 : Ovni.Emu.Bay :=
+  match exEmu.shape.connect with
+  | .ok b => b
+  | .error _ => {}
+
+theorem exBay0_connect : exEmu.shape.connect = .ok exBay0 := by rfl
+
+theorem exOHx_accepted :
+    (match Ovni.Emu.preThread exEmu 0 120 [0, 0, 0, 0] with | .ok _ => true | .error _ => false) = true := by
+  decide
+
+/-- All hypotheses of `dirty_level_ordered_sys` hold (initial state from
+    `Inv.init`, event `OHx`), hence `orderOk` for CPU 0's breakdown inputs. -/
+example : ∃ (bI : Ovni.Emu.Bay) (e' : Ovni.Emu.Emu) (bP : Ovni.Emu.Bay), Ovni.Emu.Inv exBay0 exEmu bI ∧ Ovni.Emu.preThread exEmu 0 120 [0, 0, 0, 0] = .ok e' ∧
+    orderOk (dedup (srcOrder (exEmu.shape.cpuOut 0 1 2) (exEmu.shape.cpuOut 0 1 4) (exEmu.shape.cpuOut 0 1 6)
+      bP.dirty)) = true := by
+  obtain ⟨hs, _, bI, _, _, _, hi⟩ := Ovni.Emu.Inv.init _ _ _ _ _ exBay0_connect (by decide) (by decide)
+    (by rw [List.append_nil]; exact Ovni.Emu.initSingle_allSpecs _)
+  cases h : Ovni.Emu.preThread exEmu 0 120 [0, 0, 0, 0] with
+  | error x => have := exOHx_accepted; rw [h] at this; cases this
+  | ok e' =>
+    obtain ⟨_, bP, _, _, _, _, _, _, _, _, hord⟩ :=
+      dirty_level_ordered_sys (c := 0) (k := 1) (itt := 2) (iss := 4) (iidle := 6) (m := Ovni.Emu.specNosv)
+        exBay0_connect hs hi (Ovni.Emu.SimP.preThread h) (by decide) (by rfl) (by decide) (by decide)
+        (by decide) (by decide)
+    exact ⟨bI, e', bP, hi, rfl, hord⟩
+
+private def unwrapB {α} (d : α) : Except Ovni.Emu.Err α → α
+  | .ok a => a
+  | .error _ => d
+
+/-- The same computed: `emu_connect` (connect, idle := Progressing, propagate),
+    then the three writes of `OHx` (thread 0's state, CPU 0's `th_running` and
+    `th_active`) and the dirty phase.  The CPU's breakdown inputs enter the dirty
+    list as task type, subsystem, idle. -/
+def exDirty : List Nat :=
+  let σ := exEmu.shape
+  let b1 := (σ.addrs.filter σ.hasInit).foldl
+    (fun b s => unwrapB b (b.write (σ.idx s) (σ.initOp s))) exBay0
+  let bI := (unwrapB (b1, []) b1.propagate).1
+  let w1 := unwrapB bI (bI.chanSet (σ.idx (.st 0)) (.int 1))
+  let w2 := unwrapB w1 (w1.chanSet (σ.idx (.run 0)) (.int 0))
+  let w3 := unwrapB w2 (w2.chanSet (σ.idx (.act 0)) (.int 0))
+  (unwrapB w3 (w3.dirtyPhase w3.chans.length 0)).dirty
+
+example : srcOrder (exEmu.shape.cpuOut 0 1 2) (exEmu.shape.cpuOut 0 1 4) (exEmu.shape.cpuOut 0 1 6) exDirty
+    = [.tt, .ss, .idle] ∧ exDirty.length = 18 := by decide
 
 end Ovni.Props.C20
